@@ -10,6 +10,36 @@ Import ListNotations.
 Theorem C19_plane_roundtrip_h : forall t, wf t = true -> recognize_horizontal (layout_h t) = Some (fields_of t).
 Proof. exact roundtrip_h. Qed.
 
+(* rules as rows, the WHOLE plane with the marker / rule-number column: orientation, hit policy, rule count and every field are
+   read back, for any text parsers that read the marker text as the hit policy and the number texts as the numbers *)
+Theorem C19_plane_roundtrip_rows : forall parse_hp parse_num hp_text hp num_text,
+  parse_hp hp_text = Some hp -> (forall k, parse_num (num_text k) = Some k) ->
+  forall t, wf t = true -> t_rules t <> [] ->
+  recognize_plane parse_hp parse_num (layout_rows hp_text num_text t) = Some (AsRow, hp, length (t_rules t), fields_of t).
+Proof. exact roundtrip_rows. Qed.
+
+(* rules as columns: taking the marker line off and pivoting yields exactly the plane of the table, for every table ... *)
+Theorem C19_columns_normalise : forall hp_text num_text t, wf t = true ->
+  pivot (removelast (layout_columns hp_text num_text t)) = layout_h t.
+Proof. exact columns_normalise. Qed.
+
+(* ... PARTIAL: that the marker in the bottom-left corner and the rule numbers after the double line are detected on that plane
+   is proved for the bounded shapes only (finite sweep, concrete text conventions); missing: the unbounded detection proof
+   (it needs the hypotheses that the first input expression is not a marker text and the first output name not a number) *)
+Theorem C19_plane_roundtrip_columns_bounded_partial : forall n_in n_out n_ann n_rules lbl vals,
+  1 <= n_in <= 5 -> 1 <= n_out <= 3 -> n_ann <= 2 -> 1 <= n_rules <= 8 ->
+  let t := shape_table n_in n_out n_ann n_rules lbl vals in
+  recognize_plane sw_parse_hp sw_parse_num (layout_columns 77%N sw_num_text t) = Some (AsColumn, 1%N, n_rules, fields_of t).
+Proof. exact columns_roundtrip_bounded. Qed.
+
+Theorem C19_pivot_involutive : forall p, rectangular p = true -> pivot (pivot p) = p.
+Proof. exact pivot_involutive. Qed.
+
+(* every shape read from a drawn table passes the size validation of builder.rs *)
+Theorem C19_size_validation_complete : forall t, wf t = true -> t_rules t <> [] ->
+  validate_size (length (t_inputs t)) (length (t_outputs t)) (length (t_annotations t)) (length (t_rules t)) (fields_of t) = true.
+Proof. exact size_validation_complete. Qed.
+
 (* where the recogniser finds the crossings of a laid-out table *)
 Theorem C19_crossings : forall t, wf t = true ->
   find_plane is_main (layout_h t) = Some (length (t_inputs t), hdr t) /\
@@ -54,6 +84,11 @@ Example C19_nonvacuous :
 Proof. exact nonvacuous19. Qed.
 
 Print Assumptions C19_plane_roundtrip_h.
+Print Assumptions C19_plane_roundtrip_rows.
+Print Assumptions C19_columns_normalise.
+Print Assumptions C19_plane_roundtrip_columns_bounded_partial.
+Print Assumptions C19_pivot_involutive.
+Print Assumptions C19_size_validation_complete.
 Print Assumptions C19_crossings.
 Print Assumptions C19_values_line_detected.
 Print Assumptions C19_plane_roundtrip_bounded_partial.
